@@ -147,11 +147,18 @@ def check_histories(res, rendezvous, universe, keys, hname, maxlen, rng, exhaust
         seqs = itertools.chain.from_iterable(itertools.product(events, repeat=L) for L in range(1, maxlen + 1))
     else:
         seqs = (tuple(rng.choice(events) for _ in range(rng.randrange(1, maxlen + 1))) for _ in range(samples))
-    for seq in seqs:
+    for si_, seq in enumerate(seqs):
         h = rendezvous.RendezvousHash() if HASHES[hname] is None else rendezvous.RendezvousHash(hash_function=HASHES[hname])
         cur = []
+        if si_ % 3 == 1:
+            # a hasher seeded through the constructor with an unsorted list (adopted as given), then the same history
+            seedlist = [universe[-1], universe[0]] if len(universe) > 1 else list(universe)
+            kw = {} if HASHES[hname] is None else {"hash_function": HASHES[hname]}
+            h = rendezvous.RendezvousHash(nodes=list(seedlist), **kw)
+            cur = list(seedlist)
+            res.count("histories_seeded_through_constructor")
         valid = True
-        prev = {k: None for k in keys}
+        prev = {k: (h.get_node(k) if cur else None) for k in keys}
         for ev, u in seq:
             if ev == "add":
                 h.add_node(u)
